@@ -39,6 +39,24 @@ def build_case(rng, spec, tier):
     return {"engine": "crashcut", "cfg": cfg, "ops": ops, "aseed": rng.getrandbits(32)}
 
 
+def scale_case(rng, n):
+    """Scale: one crawl batch in which one source page has n (> 1024) targets, most of them new pages
+    directly below or beside the source in the trie, and one page is cited by n sources.  Thousands of
+    write events: every shard examines its own random sample of the cuts."""
+    site = b"s:http|h:com|h:cut|"
+    hub = site + b"p:index|"
+    tgts = [site + b"p:page%04d|" % i for i in range(n // 2)] + [hub + b"p:sub%04d|" % i for i in range(n - n // 2)]
+    rng.shuffle(tgts)
+    srcs = [site + b"p:from%04d|" % i for i in range(n)]
+    rng.shuffle(srcs)  # (submitted in sorted order the siblings would form one long chain: another scale, covered elsewhere)
+    ops = [{"op": "add_pages", "lrus": [hub, site + b"p:a|"], "crawled": False, "as_str": False},
+           {"op": "batch", "data": [[hub, list(tgts)]], "as_str": False},
+           {"op": "batch", "data": [[s_, [hub]] for s_ in srcs], "as_str": False},
+           {"op": "add_links", "links": [[site + b"p:a|", hub], [hub, tgts[0]]], "as_str": False}]
+    cfg = {"backend": "file", "default": "domain", "encoding": "utf-8", "overwrite": False, "rules": []}
+    return {"engine": "crashcut", "cfg": cfg, "ops": ops, "aseed": rng.getrandbits(32), "scale": n}
+
+
 def record(case, scratch, stats, fail_at=None):
     """Run the history with the M1 log on.  Returns (log, final facts, sut rules, folder bytes)."""
     del M.LOG[:]
@@ -222,7 +240,7 @@ def prefix_files(log, n):
     return files
 
 
-def check_cut(folder, files, rules, default, facts, probes, stats, label):
+def check_cut(folder, files, rules, default, facts, probes, stats, label, lite=True):
     for n in NAMES:
         p = os.path.join(folder, n)
         if files[n] is None:
@@ -241,7 +259,7 @@ def check_cut(folder, files, rules, default, facts, probes, stats, label):
     stats["C18_cuts_opened"] += 1
     try:
         foreign = []
-        ans, (n_ok, n_ref, n_exc) = B.run(t, probes, foreign=foreign, lite=True)
+        ans, (n_ok, n_ref, n_exc) = B.run(t, probes, foreign=foreign, lite=lite)
         stats["C18_battery_answers"] += n_ok + n_ref
         if n_exc:
             return D(["C18"], "query-fails-on-reopened-index", cut=label, failures=foreign[:3])
@@ -317,7 +335,11 @@ def run_case(prop, case, spec, scratch, stats, tier_params):
     probes = sorted(facts[-1][1]["pages"])[:4] + [b"s:http|h:zz|"]
     seen = set()
     try:
-        for label, files in cuts(log, tier_params.get("byte_offsets", 3), rng):
+        sample = case.get("cut_sample")
+        keep_p = min(1.0, sample / float(max(1, nwrites))) if sample else 1.0
+        for label, files in cuts(log, tier_params.get("byte_offsets", 3) if not sample else 0, rng):
+            if sample and rng.random() > keep_p:
+                continue
             key = (hashlib.sha256((files[NAMES[0]] or b"<none>")).digest() + hashlib.sha256((files[NAMES[1]] or b"<none>")).digest()
                    + bytes([files[NAMES[0]] is None, files[NAMES[1]] is None]))
             stats["C18_cuts"] += 1
@@ -326,7 +348,7 @@ def run_case(prop, case, spec, scratch, stats, tier_params):
                 continue
             seen.add(key)
             pos = int(label.split(":")[0])
-            d = check_cut(folder, files, rules, default, allowed_facts(facts, max(0, pos - 1)), probes, stats, label)
+            d = check_cut(folder, files, rules, default, allowed_facts(facts, max(0, pos - 1)), probes, stats, label, lite="scale" if sample else True)
             if d:
                 d["detail"]["n_writes"] = nwrites
                 out.append(d)
@@ -335,8 +357,10 @@ def run_case(prop, case, spec, scratch, stats, tier_params):
         # (whichever file the library happens to create first, a crash between the two creations leaves
         # one of these).  Same oracle: refused with the library's own error, or opens consistent.
         if not out:
-            labelled = list(cuts(log, 0, rng))
-            for label, files in [labelled[-1], labelled[rng.randrange(len(labelled))]]:
+            ncuts = sum(1 for _ in cuts(log, 0, rng))
+            pick = rng.randrange(ncuts)
+            chosen = [x for j, x in enumerate(cuts(log, 0, rng)) if j == pick or j == ncuts - 1]
+            for label, files in reversed(chosen):
                 for gone in NAMES:
                     if files[gone] is None or files[NAMES[1 - NAMES.index(gone)]] is None:
                         continue
@@ -345,7 +369,8 @@ def run_case(prop, case, spec, scratch, stats, tier_params):
                     stats["C18_cuts"] += 1
                     stats["C18_cuts_one_store_missing"] += 1
                     pos = int(label.split(":")[0])
-                    d = check_cut(folder, f2, rules, default, allowed_facts(facts, max(0, pos - 1)), probes, stats, label + ":without-" + gone)
+                    d = check_cut(folder, f2, rules, default, allowed_facts(facts, max(0, pos - 1)), probes, stats, label + ":without-" + gone,
+                                  lite="scale" if case.get("cut_sample") else True)
                     if d:
                         d["detail"]["n_writes"] = nwrites
                         out.append(d)
@@ -399,15 +424,23 @@ def run_shard(prop, spec, tier, seed, shard, nshards, scratch):
         res["inconclusive"].append("recording file proxy not installed")
     deadline = time.time() + tp.get("time_cap", 600)
     saved = 0
-    for idx in range(tp["cases"]):
-        if idx % nshards != shard:
-            continue
-        if time.time() > deadline:
+    todo = [idx for idx in range(tp["cases"]) if idx % nshards == shard]
+    if tp.get("scale"):
+        todo.append("scale")
+    for idx in todo:
+        if time.time() > deadline and idx != "scale":
             res["notes"].append("shard %d stopped at time cap after %d cases" % (shard, res["cases"]))
-            break
-        rng = random.Random("%s/%s/%s/%s" % (seed, prop, tier, idx))
-        case = build_case(rng, spec, tier)
-        case["id"] = "%s/%s/%s/%s" % (seed, prop, tier, idx)
+            continue
+        if idx == "scale":
+            case = scale_case(random.Random("%s/%s/scale" % (seed, prop)), tp["scale"])
+            case["aseed"] += shard  # the same history everywhere, another sample of its cuts on every shard
+            case["cut_sample"] = tp.get("scale_cuts", 30)
+            case["id"] = "scale/%s/%s" % (tp["scale"], shard)
+            stats["C18_scale_histories"] += 1
+        else:
+            rng = random.Random("%s/%s/%s/%s" % (seed, prop, tier, idx))
+            case = build_case(rng, spec, tier)
+            case["id"] = "%s/%s/%s/%s" % (seed, prop, tier, idx)
         try:
             ds, feats, digest = run_case(prop, case, spec, scratch, stats, tp)
         except Exception as e:
